@@ -77,6 +77,23 @@ CHECKS = [
         note="n=3 (quick)/3-4 (thorough) symbolic rows (+1 NaN row), m<=3/4 boundaries in the kernel; histories of up to three transforms; X_dev/y_dev untouched is asserted in the C11/C12 API harnesses only.",
         technique=TECH,
     ),
+
+    dict(
+        property_id="C12",
+        text="Bounded symbolic model checking of MulticlassCarver against its specification: on every path of complete real fits on a symbolic quantitative column (all weak orderings), for surjective class patterns onto 3 classes with int, str and string-sort-differs labels, optional dev frame and an explicit min_freq_mod, every column f_ci equals BinaryCarver(same parameters).fit(X, 1[y=ci]).transform(X)[f], is present iff that carver keeps f, classes are taken in string-sorted order with the first skipped, raw column unchanged, inputs untouched. Name injectivity (O12.2) is decided by CrossHair on the real append_class and replayed at API level.",
+        design_ref="DESIGN.md 6/C12",
+        note="n=4 (quick)/4-5 rows, 5/16 class patterns per shape. Two open known findings (KF-C12-1/2: f'{feature}_{class}' is not injective and may equal a raw feature name); CrossHair confirms uniqueness under the recorded exclusion (no '_' in class labels, equal-length feature names, <=4 chars).",
+        technique=TECH + "; CrossHair (z3 sequence theory) for column names",
+        crosshair=True,
+    ),
+    dict(
+        property_id="C19",
+        text="Bounded exploration of malformed inputs on the real classes: each corruption class of the property (NaN in y, wrong class count in 4 variants, y index shifted, non-DataFrame X / non-Series y in 3 variants, missing column in X / X_dev / at transform, feature in two lists, string in a quantitative column, ordinal value absent from the ranking, second fit on same/different data) is injected at a solver-chosen position/variant for 6 classes, before and after a successful fit: AssertionError and nothing else; a fitted object's values_orders, to_json() and transform are unchanged afterwards. sort_by strings: CrossHair proves every string (<=12 chars) other than the implemented measures is refused with AssertionError by the real constructors.",
+        design_ref="DESIGN.md 6/C19",
+        note="Data values are concrete (a fixed valid 12-row sample); the symbolic variables are kind, position, variant and column of the corruption, and the sort_by string. Corruptions not listed in the property are outside the claim.",
+        technique="solver-chosen fault injection on the real API (symx) + CrossHair on the constructors' sort_by check",
+        crosshair=True,
+    ),
 ]
 
 ALL = ["C%02d" % i for i in range(1, 20)]
